@@ -63,9 +63,16 @@
   The `decide +kernel` examples at the end are tests on concrete inputs (theorem and evaluation agree) and show
   that the hypotheses are satisfiable.
 
+  Under every chunk schedule (`Sipsp.Proofs.ShiftParams`, composing the theorems above with C02's schedule theorems;
+  without the end-of-input option): `tokparam_any_schedule`, `gparam_any_schedule`: whatever one call on the last
+  buffer of a growing sequence of prefixes returns is what the chain of resumed calls returns — in particular a
+  parameter of the grammar is reported exactly as written however the input was cut; `uri_param_list_any_schedule`,
+  `uri_hdr_list_any_schedule`: a list of the grammar is decomposed exactly as in `uri_param_list` / `uri_hdr_list`
+  (offset, verdict, total count, slots, type flags) under every chunk schedule.
+
   NOT proved here:
-  * suspended / resumed calls (objects not in the initial state, `MoreBytes` results and their continuation);
-    without `POptInputEndF` a parameter that runs into the end of the buffer gives `MoreBytes`, not covered;
+  * the composition above with `POptInputEndF` set on the last call;
+    without `POptInputEndF` a parameter that runs into the end of the buffer gives `MoreBytes` (resumption: C02);
   * completeness of the rejection theorems (e.g. a bad byte after `name LWS`, after a separator (step lemma
     `tpStep_fNxt_bad` only), inside a quoted string, a token after `name LWS` without `POptTokSpTermF`); errors inside the list wrappers (only successful lists are treated);
   * quoted value directly followed by a token with `POptTokSpTermF` (no white space in between).
@@ -85,6 +92,7 @@
   Model tied to parse_params.go / parse_uri_params.go / parse_uri_hdrs.go by the correspondence check.
 -/
 import Sipsp.Proofs.ParamSpec
+import Sipsp.Proofs.ShiftParams
 
 namespace Sipsp.C17
 open Sipsp
@@ -557,5 +565,26 @@ example : ∃ r, parseAllURIParams "a;?x".toUTF8.data 0 { params := Array.replic
       · cases hx; rfl
       · cases hx)
   exact ⟨r, h1, h2⟩
+
+/-! ### the grammar-level decomposition under every chunk schedule (proved in `Sipsp.Proofs.ShiftParams`) -/
+
+/-- [EXPORT C17] **C17 for every chunk schedule, ParseTokenParam**: whatever result ONE call on the complete buffer
+    `B` (the last of the growing prefixes) gives — in particular the decompositions of C17 (`param_token_value`,
+    `param_no_value`, `param_quoted_value`, …, the rejections) — is what the chain of resumed calls returns, however
+    the input was cut into pieces -/
+theorem tokparam_any_schedule : type_of% @Sipsp.tokparam_any_schedule := @Sipsp.tokparam_any_schedule
+
+/-- [EXPORT C17] … for a parameter of the grammar (`GParam`: no value / token / quoted / empty value, any white space and empty
+    items, any ending), from a new object -/
+theorem gparam_any_schedule : type_of% @Sipsp.gparam_any_schedule := @Sipsp.gparam_any_schedule
+
+/-- [EXPORT C17] **C17 for every chunk schedule, ParseAllURIParams**: the complete buffer `B` (last of the growing prefixes)
+    holds a parameter list of the grammar; the chain of resumed calls on ANY schedule of prefixes returns the offset
+    and verdict of the list end, the values counted over all calls add up to the number of parameters, parameter `i`
+    is stored with the type of its name in slot `n + i`, the type flags are accumulated -/
+theorem uri_param_list_any_schedule : type_of% @Sipsp.uri_param_list_any_schedule := @Sipsp.uri_param_list_any_schedule
+
+/-- [EXPORT C17] **C17 for every chunk schedule, ParseAllURIHdrs** (separator '&') -/
+theorem uri_hdr_list_any_schedule : type_of% @Sipsp.uri_hdr_list_any_schedule := @Sipsp.uri_hdr_list_any_schedule
 
 end Sipsp.C17
